@@ -385,8 +385,8 @@ Outcome exec_c19(const C19Case& c, bool keep_log, Stats* stats) {
     stats->add("fopen_calls", fopen_count);
     stats->add("cookie_reads", fs.cookie_reads);
     stats->add(faulted ? "worlds_faulted" : "worlds_fault_free");
-    for (const C19Fault& f : c.faults) stats->add("fault." + f.k);
-    for (auto& kv : rt.faults_fired) stats->add("fault.fired." + kv.first, kv.second);
+    for (const C19Fault& f : c.faults) stats->add("fault_configured." + f.k);
+    for (auto& kv : rt.faults_fired) stats->add("fault." + kv.first, kv.second);   // fired = the injected error was actually returned to glibc
     for (const OpResult& r : res1) stats->add(r.is_utc ? "probe.result_utc" : "probe.result_zone");
     if (!rt.ub.empty()) stats->add("ubsan_reports_counted_not_judged", static_cast<int64_t>(rt.ub.size()));
   }
